@@ -136,6 +136,21 @@ def parse(repo):
         raise Unparsable("forward substitution: the update term is not `*b++ * x`")
     upd = f"prN {up[1][0]} {fac[repr(unparen(ur[2]))]} * {fac[repr(unparen(ur[3]))]}"
 
+    # gather of a correlated block: `T.set_zero();` ... `T(i, perm[c]) <op> *b++;` (round 9b: `=` vs `+=` is regenerated data)
+    gs = re.findall(r"\bT\s*\(\s*i\s*,\s*perm\s*\[\s*c\s*\]\s*\)\s*([-+*/]?=)(?!=)\s*\*\s*b\s*\+\+\s*;", body)
+    if len(gs) != 1 or gs[0] not in ("=", "+=", "-="):
+        raise Unparsable("Homogenization::run: the gather statement `T(i, perm[c]) <op> *b++;` found %d times / unknown operator %r"
+                         % (len(gs), gs))
+    gop = gs[0]
+    zm = list(re.finditer(r"\bT\s*\.\s*set_zero\s*\(\s*\)\s*;", body))
+    decl = re.search(r"Mat<Float>\s+T\s*\(\s*block_dim\s*,\s*bcols\s*\)\s*;", body)
+    gpos = re.search(r"\bT\s*\(\s*i\s*,\s*perm\s*\[", body).start()
+    zeroed = bool(decl) and len(zm) == 1 and decl.end() <= zm[0].start() < gpos and \
+        not re.search(r"\bT\s*\(", body[zm[0].end():gpos])
+    if not decl:
+        raise Unparsable("Homogenization::run: `Mat<Float> T(block_dim, bcols);` not found")
+    gstore = {"=": "a", "+=": "old + a", "-=": "old - a"}[gop]
+
     # dimension guards
     guards = {}
     for fn in ("finish_obs", "finish_hdiffs"):
@@ -182,6 +197,12 @@ def fwdPivot {{K : Type}} [Scalar K] (prRow u : K) : K := prRow {pv[1]} u
 
 /-- forward substitution of the right-hand side: `pr(n++) {up[1]} …;` in `while (b != e)` -/
 def fwdUpdate {{K : Type}} [Scalar K] (prN u x : K) : K := {upd}
+
+/-- gather of a correlated block, `T(i, perm[c]) {gop} *b++;`: the value stored for the coefficient `a` where `old` stands -/
+def gatherStore {{K : Type}} [Scalar K] (old a : K) : K := {gstore}
+
+/-- `Mat<Float> T(block_dim, bcols); T.set_zero();` precedes the gather loop and nothing touches `T` in between -/
+def gatherZeroed : Bool := {"true" if zeroed else "false"}
 
 /-- `GKFparser::finish_obs`: `if (idim {guards['finish_obs'][0]} idim {guards['finish_obs'][1]} static_cast<int>(standpoint->observation_list.size())) return error(…)` -/
 def dimGuardObs (idim nobs : Nat) : Bool := {guard_lean(*guards['finish_obs'])}
